@@ -206,14 +206,16 @@ def dispatch_contract(rep):
                 setattr(fl, nm, stub(nm))
         for k in kinds:
             for g in SUPPORTED_GROUPINGS:
-                spec = {"aggr": k} if k == "count" else {"aggr": k, "source_col": "verif_src"}
+                # the source may itself be a group-level column of a finer unit (wohngeld_vorrang_bg -> _wthh)
+                src_name = "verif_src_bg" if g in ("wthh", "hh") else "verif_src"
+                spec = {"aggr": k} if k == "count" else {"aggr": k, "source_col": src_name}
                 del calls[:]
                 try:
                     f = fl._create_one_aggregate_by_group_func(f"verif_col_{g}", spec, {})
                     args = list(inspect.signature(f).parameters)
                     kw = {a: ("value-of", a) for a in args}
                     out = f(**kw)
-                    want_args = (("value-of", f"{g}_id"),) if k == "count" else (("value-of", "verif_src"), ("value-of", f"{g}_id"))
+                    want_args = (("value-of", f"{g}_id"),) if k == "count" else (("value-of", src_name), ("value-of", f"{g}_id"))
                     ok = len(calls) == 1 and calls[0][0] == f"grouped_{k}" and tuple(calls[0][1]) + tuple(calls[0][2].values()) == want_args and out == ("result-of", f"grouped_{k}")
                     detail = f"arguments {args}; calls {[(c[0], c[1]) for c in calls]}"
                 except TypeError as ex:  # the factory's own signature changed: the contract no longer binds
@@ -353,6 +355,30 @@ def precedence(rep):
         rep.ob(name, "discharged" if ok else "refuted", "exhaustive-run", 0, "src/_gettsim/functions_loader.py:41 load_and_check_functions", "precedence", f"got {got}")
         if not ok:
             rep.violation(f"precedence2:{explicit_fn}:{requested_as}", f"{name}: got {got}", {"obligation": name, "got": got}, True)
+    # S3: an explicit group-level RULE x_m_hh (not a sum) next to an individual-level x_m: requested in another
+    # time unit, x_y_hh is the conversion of the explicit rule, not an automatic sum of x_y
+    def verif_x_m(x: float) -> float:
+        return x
+
+    def verif_x_m_hh(x: float) -> float:
+        return 2.0 * x
+
+    name = "S3 explicit rule verif_x_m_hh next to verif_x_m: verif_x_y_hh is the time conversion of the explicit rule"
+    try:
+        with _w.catch_warnings():
+            _w.simplefilter("ignore")
+            fno_, _fo = fl.load_and_check_functions(functions_raw=[{"verif_x_m": verif_x_m, "verif_x_m_hh": verif_x_m_hh}], targets=["verif_x_y_hh"], data_cols=["x", "hh_id", "p_id"], aggregate_by_group_specs={}, aggregate_by_p_id_specs={})
+        g_ = fno_.get("verif_x_y_hh")
+        got = list(inspect.signature(g_).parameters) if g_ is not None else None
+        ok = got == ["verif_x_m_hh"]
+        rep.ob(name, "discharged" if ok else "refuted", "exhaustive-run", 0, "src/_gettsim/functions_loader.py:41 load_and_check_functions", "precedence", f"verif_x_y_hh reads {got}")
+        if not ok:
+            rep.violation("precedence3:explicit-rule-other-unit", f"{name}: it reads {got} (an automatic sum of the yearly individual-level column replaces the explicit rule)", {"obligation": name, "got": got}, True)
+    except TypeError as ex:
+        rep.ob(name, "unsupported", "exhaustive-run", 0, "src/_gettsim/functions_loader.py:41 load_and_check_functions", "binding", repr(ex))
+    except Exception as ex:  # noqa: BLE001
+        rep.ob(name, "refuted", "exhaustive-run", 0, "src/_gettsim/functions_loader.py:41 load_and_check_functions", "precedence", repr(ex)[:200])
+        rep.violation("precedence3:explicit-rule-other-unit", f"{name}: {ex!r}"[:300], {"obligation": name}, True)
     # by-p_id specs: user spec wins for that call and does not leak into later calls
     try:
         builtin = fl.load_aggregation_dict(typ="aggregate_by_p_id")
@@ -415,7 +441,7 @@ def bounded(rep, tier):
         for gid in itertools.product(gid_dom, repeat=n):
             g = numpy.array(gid)
             distinct += 1
-            for kind, dom, dt in (("sum", [0.0, 1.5, -2.0], float), ("mean", [0.0, 1.5, -2.0], float), ("max", [0.0, 1.5, -2.0], float), ("min", [3, 1, -2], int), ("sum", [False, True], bool), ("any", [False, True], bool), ("all", [False, True], bool), ("sum", [0, 2, -1], int)):
+            for kind, dom, dt in (("sum", [0.0, 1.5, -2.0], float), ("mean", [0.0, 1.5, -2.0], float), ("max", [0.0, 1.5, -2.0], float), ("min", [3, 1, -2], int), ("sum", [False, True], bool), ("any", [False, True], bool), ("all", [False, True], bool), ("sum", [0, 2, -1], int), ("any", [0, 2, -1], int), ("all", [3, 0, -1], int), ("sum", [0.5, 1.25, -2.75], numpy.float32), ("max", [0.5, 1.25, -2.75], numpy.float32)):
                 for col in itertools.product(dom, repeat=n):
                     if n == nmax and kind in ("mean", "max", "min") and col[0] != dom[0]:
                         continue  # thin out the largest size
